@@ -117,3 +117,113 @@ impl<'a, K, V> OccupiedEntry<'a, K, V> {
 impl<K, V> crate::util::Compact for FnvHashMap<K, V> {
     fn compact(&mut self, _: f64) {}
 }
+
+// ---------------------------------------------------------------------------------------------
+// tokio_util::time::DelayQueue — the real one calls tokio::time::sleep_until and cannot run without
+// a tokio runtime.  Contract modelled (tokio-util 0.7 docs + source): insert(value, timeout)
+// returns a Key and PANICS if now + timeout is not representable or the timeout exceeds the wheel's
+// range (2^36 - 1 ms); remove(&key) returns the entry and PANICS on a key that is not in the queue
+// ("invalid key"); poll_expired yields entries whose deadline has passed, earliest first,
+// Ready(None) when the queue is empty, Pending otherwise; clear(); is_empty(); len().
+// Time is std::time::Instant::now() (the harness clock).  Millisecond rounding is not modelled: an
+// entry is due exactly from its deadline on (the real queue fires at or after it).
+pub mod delay_queue {
+    use super::*;
+    use std::time::{Duration, Instant};
+    pub const WHEEL_MAX_MS: u128 = (1u128 << 36) - 1;
+    #[derive(Debug, Clone, Copy, PartialEq, Eq)]
+    pub struct Key { slot: usize, gen: u32 }
+    #[derive(Debug)]
+    pub struct Expired<T> { value: T, deadline: Instant, key: Key }
+    impl<T> Expired<T> {
+        pub fn get_ref(&self) -> &T { &self.value }
+        pub fn into_inner(self) -> T { self.value }
+        pub fn key(&self) -> Key { self.key }
+    }
+    pub struct DelayQueue<T> { used: [bool; CAP], gen: [u32; CAP], vals: [MaybeUninit<T>; CAP], due: [MaybeUninit<Instant>; CAP] }
+    impl<T> Default for DelayQueue<T> {
+        fn default() -> Self { DelayQueue { used: [false; CAP], gen: [0; CAP], vals: unsafe { MaybeUninit::uninit().assume_init() }, due: unsafe { MaybeUninit::uninit().assume_init() } } }
+    }
+    impl<T> std::fmt::Debug for DelayQueue<T> { fn fmt(&self, f: &mut std::fmt::Formatter<'_>) -> std::fmt::Result { f.write_str("DelayQueue(model)") } }
+    impl<T> DelayQueue<T> {
+        pub fn new() -> Self { Self::default() }
+        pub fn insert(&mut self, value: T, timeout: Duration) -> Key {
+            let due = match Instant::now().checked_add(timeout) { Some(d) => d, None => panic!("overflow when adding duration to instant") };
+            assert!(timeout.as_millis() <= WHEEL_MAX_MS, "invalid deadline; err=Invalid");
+            let mut i = 0;
+            while i < CAP && self.used[i] { i += 1; }
+            assert!(i < CAP, "verif_env: model timer queue bound exceeded");
+            self.used[i] = true;
+            self.gen[i] += 1;
+            self.vals[i] = MaybeUninit::new(value);
+            self.due[i] = MaybeUninit::new(due);
+            Key { slot: i, gen: self.gen[i] }
+        }
+        pub fn remove(&mut self, key: &Key) -> Expired<T> {
+            assert!(key.slot < CAP && self.used[key.slot] && self.gen[key.slot] == key.gen, "invalid key");
+            self.used[key.slot] = false;
+            Expired { value: unsafe { std::ptr::read(self.vals[key.slot].as_ptr()) }, deadline: unsafe { std::ptr::read(self.due[key.slot].as_ptr()) }, key: *key }
+        }
+        pub fn poll_expired(&mut self, _: &mut Context<'_>) -> Poll<Option<Expired<T>>> {
+            if self.is_empty() { return Poll::Ready(None); }
+            let now = Instant::now();
+            let mut best = CAP;
+            let mut i = 0;
+            while i < CAP {
+                if self.used[i] {
+                    let d = unsafe { std::ptr::read(self.due[i].as_ptr()) };
+                    if d <= now && (best == CAP || d < unsafe { std::ptr::read(self.due[best].as_ptr()) }) { best = i; }
+                }
+                i += 1;
+            }
+            if best == CAP { return Poll::Pending; }
+            let key = Key { slot: best, gen: self.gen[best] };
+            Poll::Ready(Some(self.remove(&key)))
+        }
+        pub fn clear(&mut self) {
+            let mut i = 0;
+            while i < CAP { if self.used[i] { self.used[i] = false; unsafe { std::ptr::drop_in_place(self.vals[i].as_mut_ptr()); } } i += 1; }
+        }
+        pub fn is_empty(&self) -> bool { self.len() == 0 }
+        pub fn len(&self) -> usize { let mut n = 0; let mut i = 0; while i < CAP { if self.used[i] { n += 1; } i += 1; } n }
+        /// (model only) the deadline an entry is armed with
+        pub fn deadline_of(&self, key: &Key) -> Instant { unsafe { std::ptr::read(self.due[key.slot].as_ptr()) } }
+    }
+}
+
+// extras of the map model used by the in-flight tables
+pub struct Values<'a, K, V> { map: &'a FnvHashMap<K, V>, i: usize }
+impl<'a, K, V> Iterator for Values<'a, K, V> {
+    type Item = &'a V;
+    fn next(&mut self) -> Option<&'a V> {
+        while self.i < CAP {
+            let i = self.i;
+            self.i += 1;
+            if self.map.used[i] { return Some(unsafe { &*self.map.vals[i].as_ptr() }); }
+        }
+        None
+    }
+}
+pub struct Drain<'a, K, V> { map: &'a mut FnvHashMap<K, V>, i: usize }
+impl<'a, K, V> Iterator for Drain<'a, K, V> {
+    type Item = (K, V);
+    fn next(&mut self) -> Option<(K, V)> {
+        while self.i < CAP {
+            let i = self.i;
+            self.i += 1;
+            if self.map.used[i] {
+                self.map.used[i] = false;
+                return Some(unsafe { (std::ptr::read(self.map.keys[i].as_ptr()), std::ptr::read(self.map.vals[i].as_ptr())) });
+            }
+        }
+        None
+    }
+}
+impl<K, V> FnvHashMap<K, V> {
+    pub fn values(&self) -> Values<'_, K, V> { Values { map: self, i: 0 } }
+    pub fn drain(&mut self) -> Drain<'_, K, V> { Drain { map: self, i: 0 } }
+    pub fn is_empty(&self) -> bool { let mut i = 0; while i < CAP { if self.used[i] { return false; } i += 1; } true }
+}
+pub mod hash_map {
+    pub use super::Entry;
+}
